@@ -146,6 +146,8 @@ def c07(ctx):
     lines = None
     for x in rr.records:
         if "bad" in x and x.get("ev") == "Search":
+            if not set(x.get("diff", [])) & {"placement", "turn", "cr", "ep", "hm", "fm", "seen", "keyStable", "result", "failed"}:
+                continue    # e.g. a key that is wrong before and after the call alike: C05's business, not C07's
             if lines is None:
                 lines = open(out).read().splitlines()
             evt = json.loads(lines[x["bad"] - 1])
